@@ -14,7 +14,7 @@ import numpy as np
 from verifsim import core, harness, sched
 
 PROP = "C23"
-STYPES = ["sym", "float", "list", "ndarray", "ndarray_nc", "ndarray_f", "ndarray_0d", "field", "multifield"]
+STYPES = ["sym", "float", "list", "ndarray", "ndarray_nc", "ndarray_f", "ndarray_0d", "ndarray_mixed", "field", "multifield"]
 
 
 class Sym:
@@ -79,6 +79,14 @@ def summands(n, stype):
         return out
     if stype == "ndarray_0d":
         return [np.array(rng.uniform(0.5, 1.5) * 10.0 ** rng.integers(-9, 9)) for _ in range(n)]
+    if stype == "ndarray_mixed":
+        # summands of different numpy dtypes: every partial sum has numpy's promoted dtype
+        dts = [np.float64, np.float32, np.int64, np.complex128, np.float32, np.float64, np.int32, np.float32]
+        out = []
+        for i in range(n):
+            a = rng.uniform(0.5, 1.5, (2, 3)) * 10.0 ** rng.integers(-3, 4, (2, 3))
+            out.append((a * 100).astype(dts[i % len(dts)]))
+        return out
     if stype == "ndarray_f":
         return [np.asfortranarray(rng.uniform(0.5, 1.5, (2, 3)) * 10.0 ** rng.integers(-9, 9, (2, 3)))
                 for _ in range(n)]
